@@ -84,8 +84,8 @@ class ColumnarConverter(XMLSchemaConverter):
 
         if data.content:
             for name, value, xsd_child in self.map_content(data.content):
-                if not value:
-                    continue
+                if not value or xsd_child is None:
+                    continue  # no value or a kept unknown child, that has no column
                 elif xsd_child.local_name:
                     name = xsd_child.local_name
                 else:
